@@ -410,7 +410,7 @@ pub fn run_check<P: Prop>(p: &P, tier: Tier) -> i32 {
         "violations": new_violations,
         "replays": replay_paths,
     });
-    let ev_dir = verif_root().join("evidence");
+    let ev_dir = std::env::var("VERIF_EVIDENCE_DIR").map(PathBuf::from).unwrap_or_else(|_| verif_root().join("evidence"));
     let _ = std::fs::create_dir_all(&ev_dir);
     let ev_path = ev_dir.join(format!("{}.json", p.id()));
     if let Err(e) = std::fs::write(&ev_path, serde_json::to_string_pretty(&evidence).unwrap()) {
@@ -504,7 +504,7 @@ fn report_violation<P: Prop>(p: &P, seed: u64, idx: u64, v: &Violation, tier: Ti
         shrink_steps: steps,
         case: serde_json::to_value(&case).unwrap(),
     };
-    let dir = verif_root().join("replays");
+    let dir = std::env::var("VERIF_REPLAY_DIR").map(PathBuf::from).unwrap_or_else(|_| verif_root().join("replays"));
     let _ = std::fs::create_dir_all(&dir);
     let path = dir.join(format!(
         "{}-{}-{}-{:08x}.json",
